@@ -274,6 +274,13 @@ func (e *env) inner(w http.ResponseWriter, r *http.Request) {
 	case !e.realSrv && r.RequestURI != idRequestURI(id):
 		e.problem("request %d: RequestURI %q", id, r.RequestURI)
 	}
+	if want := r.Header.Get("X-Want-Trailer"); want != "" {
+		// trailers arrive with the end of the body: net/http fills them into the request it handed to the
+		// outermost handler
+		if got := r.Trailer.Get("X-Trailer-Id"); got != want {
+			e.problem("request %d: after reading the body the trailer X-Trailer-Id is %q, the client sent %q", id, got, want)
+		}
+	}
 	l, ok := slogutil.LoggerFromContext(r.Context())
 	if !ok {
 		e.problem("request %d: no logger in the context", id)
@@ -624,7 +631,7 @@ func TestServer(t *testing.T) {
 	r := mon.Start("C20", "server")
 	rounds := r.Pick(6, 60)
 	perClient := r.Pick(150, 600)
-	var reqs atomic.Int64
+	var reqs, trailers atomic.Int64
 	for round := 0; round < rounds && !r.TooMany(); round++ {
 		e, h := newEnvMode(round%2 == 1, true, []int{0, 1, 2}[round%3])
 		srv := httptest.NewServer(h)
@@ -644,6 +651,16 @@ func TestServer(t *testing.T) {
 					req, _ := http.NewRequest(idMethod(id), srv.URL+idURI(id), strings.NewReader(idBody(id)))
 					req.Host = idHost(id)
 					req.Header.Set("X-Id", strconv.Itoa(id))
+					if id%5 == 0 {
+						// chunked body followed by a trailer
+						req.Body = io.NopCloser(strings.NewReader(idBody(id)))
+						req.ContentLength = -1
+						req.GetBody = nil
+						tv := fmt.Sprintf("t-%d", id)
+						req.Trailer = http.Header{"X-Trailer-Id": {tv}}
+						req.Header.Set("X-Want-Trailer", tv)
+						trailers.Add(1)
+					}
 					res, err := cl.Do(req)
 					if err != nil {
 						e.problem("request %d failed: %v", id, err)
@@ -669,6 +686,7 @@ func TestServer(t *testing.T) {
 	}
 	r.NontrivialN(int64(rounds))
 	r.Count("requests", reqs.Load())
+	r.Count("chunked_requests_with_a_trailer", trailers.Load())
 	r.Sample(map[string]any{"server": "httptest.Server on loopback, 2..8 keep-alive clients, 1xx Early Hints before the final code for script 3"})
 	if r.Finish() > 0 {
 		t.Fail()
